@@ -276,7 +276,9 @@ def do_check(pid, tier, seed, args, t0):
     ev = {"property_id": pid, "tier": tier, "seed": seed, "level": ev_level, "coverage": cov,
           "assumptions": trusted + list(getattr(M, "ASSUMPTIONS", [])), "wall_s": round(wall, 2),
           "violations": len(violations)}
-    with open(os.path.join(HERE, "evidence", f"{pid}.json"), "w") as f:
+    evdir = os.environ.get("OSU_EVIDENCE_DIR") or os.path.join(HERE, "evidence")
+    os.makedirs(evdir, exist_ok=True)
+    with open(os.path.join(evdir, f"{pid}.json"), "w") as f:
         json.dump(ev, f, indent=1, default=str)
 
     print(f"{pid}: functions={len(functions)} obligations={n_obl} discharged={n_dis} {by_backend} "
